@@ -247,6 +247,15 @@ class CascadeTap(E1Prop):
                      if r.startswith('w/') and r.endswith('/' + src) and
                      '/' not in r[2:-len(src) - 1])
         w.probe('integration-branches-compared')
+        # a branch left from an earlier, longer cascade (a destination was
+        # archived since) is not this evaluation's doing: what is decided
+        # here is that every target has its branch and nothing new appears
+        # for a non-target
+        stale = [v for v in got if v not in want and
+                 ('w/%s/%s' % (v, src)) in rec['refs_before']]
+        if stale:
+            w.probe('stale-integration-branch-of-removed-target')
+            got = [v for v in got if v not in stale]
         if got != want:
             raise Violation(
                 'C09', 'C09:tap:wrong-integration-branches',
